@@ -136,7 +136,7 @@ PLAN = {
         'note': COMMON_TRUST + 'The word-level theorem covers key values of one code point each and consonants of the explicit consonant set; fused layout values and words that start right after a hasanta are only in the bounded check fixed_rules (typewriter-order vs Unicode-order typing of syllable words); the ra + zo-fola defect found this way is repaired in /repo (known_findings.json).',
     },
     'C15': {
-        'bounded': ['fixed_api', 'update_engine'], 'data': ['tables'],
+        'bounded': ['fixed_api', 'update_engine', 'fixed_dict'], 'data': ['tables'],
         'level': 'proof',
         'units': ['fixed_session', 'fixed_search', 'data'],
         'technique': 'Verus: functional postcondition list == fx_list(text, raw keys, options, data) for create_dictionary_suggestion, with lemma 1 <= len <= 9',
@@ -144,7 +144,7 @@ PLAN = {
         'note': COMMON_TRUST + 'search_dictionary and clean_string are PROVED in unit fixed_search on the real body (fx_dict is defined as sd_list: the words of the first-letter table, in table order, that the pattern ^<cleaned key>[letters]{0,n}$ matches, each as Other(form, 10 x edit distance from the typed word), form = non-joiner before every u / uu / ri sign with traditional joining); lemma_sd_list_sound: every such candidate is a dictionary word that begins with the typed word once the ignored punctuation is removed.  Assumed there (T3): the regex crate (a cleaned key gives a pattern that compiles; a match of the anchored pattern has the key as a prefix -- stated for the pinned format string only), the edit-distance crate, Vec::extend over a Map drains it and applies the closure in order, chars().any as a same-bodied wrapper; data precondition: 10 x distance of a hit fits u8.  The bounded check fixed_api stays as an independent cross-check of these assumptions (regex-special punctuation inside the word, hasanta-final words); ordering rests on one axiom about std sort_unstable (sorted permutation w.r.t. the proved comparator key; nothing assumed about ties) + data preconditions (distance <= 25, at most nine emoji per Bengali name).',
     },
     'C16': {
-        'bounded': ['ansi', 'fixed_api', 'phonetic_api', 'update_engine'], 'ffi_native': ['ffi_life_cycles_native'],
+        'bounded': ['ansi', 'fixed_api', 'phonetic_api', 'update_engine', 'fixed_dict'], 'ffi_native': ['ffi_life_cycles_native'],
         'level': 'proof',
         'units': ['rank', 'fixed_session', 'phon', 'pmeth'],
         'technique': 'Verus: ANSI clauses of the list functions, get_pre_edit_text == bijoy(candidate) / candidate, option getter',
